@@ -107,20 +107,20 @@ pub open spec fn scan_of(it: Iter, o: RWorld, n: RWorld, ks: u64) -> bool { it.i
 //@extract src/keyspace/mod.rs :: Keyspace :: iter world props=C01+C05+C06
 //@contract
     requires ks_ok(self),
-    ensures r.iter.at@ == r.nonce.instant && r.iter.ks@ == self.id, // [C05:scan-reads-at-its-own-instant] [C06:scan-reads-at-its-own-instant]
+    ensures r.iter.at@ == r.nonce.instant && r.iter.ks@ == self.id, // [C01:scan-reads-at-its-own-instant] [C05:scan-reads-at-its-own-instant] [C06:scan-reads-at-its-own-instant]
         reads_only_at(*old(w), *final(w), r.nonce.instant), // [C05:scan-reads-at-its-own-instant]
         r.iter.todo@.len() < usize::MAX,
 //@end
 //@extract src/keyspace/mod.rs :: Keyspace :: range world props=C01+C05+C06
 //@contract
     requires ks_ok(self),
-    ensures r.iter.at@ == r.nonce.instant && r.iter.ks@ == self.id, // [C05:scan-reads-at-its-own-instant] [C06:scan-reads-at-its-own-instant]
+    ensures r.iter.at@ == r.nonce.instant && r.iter.ks@ == self.id, // [C01:scan-reads-at-its-own-instant] [C05:scan-reads-at-its-own-instant] [C06:scan-reads-at-its-own-instant]
         reads_only_at(*old(w), *final(w), r.nonce.instant), // [C05:scan-reads-at-its-own-instant]
 //@end
 //@extract src/keyspace/mod.rs :: Keyspace :: prefix world props=C01+C05+C06
 //@contract
     requires ks_ok(self),
-    ensures r.iter.at@ == r.nonce.instant && r.iter.ks@ == self.id, // [C05:scan-reads-at-its-own-instant] [C06:scan-reads-at-its-own-instant]
+    ensures r.iter.at@ == r.nonce.instant && r.iter.ks@ == self.id, // [C01:scan-reads-at-its-own-instant] [C05:scan-reads-at-its-own-instant] [C06:scan-reads-at-its-own-instant]
         reads_only_at(*old(w), *final(w), r.nonce.instant), // [C05:scan-reads-at-its-own-instant]
 //@end
 
